@@ -186,6 +186,38 @@ type GNode struct {
 	ByKey map[string]*GNode
 }
 
+// GF: graph node with two pointer slots and one filler field of every kind in front of them (C04)
+type GF struct {
+	Id  int32
+	M   map[string]int32
+	S   []int32
+	T   time.Time
+	Str string
+	Bin []byte
+	In  Inner
+	A   *GF
+	B   *GF
+}
+
+// GHolder ends a graph with probe references to an early and a late node
+type GHolder struct {
+	Root  *GF
+	Early *GF
+	Late  *GF
+}
+
+// Shr: the same slice / map / array placed in sibling fields
+type Shr struct {
+	S1 []int32
+	S2 []int32
+	M1 map[string]int32
+	M2 map[string]int32
+	P1 []*Inner
+	P2 []*Inner
+	PS *[]*Inner
+	X  *Inner
+}
+
 // ---- class family
 
 type K01 struct{ A int32 }
@@ -284,6 +316,7 @@ var Types = []Entry{
 	e(MpStrStr{}, "map"), e(MpStrI32{}, "map"), e(MpStrI64{}, "map"), e(MpStrInt{}, "map"), e(MpStrF64{}, "map"), e(MpStrBool{}, "map"),
 	e(MpStrBin{}, "map"), e(MpStrTime{}, "map"), e(MpStrStruct{}, "map"), e(MpStrPtr{}, "map"), e(MpStrSl{}, "map"), e(MpStrMp{}, "map"),
 	e(MpI32Str{}, "map"), e(MpI64Str{}, "map"), e(MpIface{}, "map", "iface"),
+	e(GF{}, "recursive"), e(GHolder{}, "recursive"), e(Shr{}, "slice", "map"),
 	e(Node{}, "recursive"), e(Tree{}, "recursive"), e(MNode{}, "recursive"), e(Ping{}, "recursive"), e(GNode{}, "recursive"),
 	e(Bag{}, "classes"),
 	top([]int32{}, "slice"), top([]string{}, "slice"), top([]Inner{}, "slice"), top([]*Inner{}, "slice"), top([]interface{}{}, "slice", "iface"),
